@@ -45,3 +45,30 @@ package toy
 //@   loop 1 invariant 0 <= loopk && loopk <= len(xs) && len(out) == old(cnt(xs, loopk)) && GvcFresh(out)
 //@   loop 1 invariant (forall i int :: 0 <= i && i < loopk && old(xs[i] > 0) ==> 0 <= old(cnt(xs, i)) && old(cnt(xs, i)) < len(out))
 //@   loop 1 invariant (forall i int :: 0 <= i && i < loopk && old(xs[i] > 0) ==> out[old(cnt(xs, i))] == old[int](xs[i]))
+
+//@ spec func hasD(ds []D, pos int) bool { return (exists k int :: 0 <= k && k < len(ds) && ds[k].Code == "c" && ds[k].Pos == pos) }
+//@ func Collect(xs []int) (r []D)
+//@   ensures (forall i int :: 0 <= i && i < len(xs) && xs[i] > 0 ==> hasD(r, xs[i]))
+//@   loop 1 localwrites
+//@   loop 1 invariant ds == nil || GvcFresh(ds)
+//@   loop 1 invariant (forall i int :: 0 <= i && i < loopk && xs[i] > 0 ==> hasD(ds, xs[i]))
+
+//@ spec func hasD2(ds []D2, code string, pos int) bool { return (exists k int :: 0 <= k && k < len(ds) && ds[k].Code == code && ds[k].Pos == pos) }
+//@ rec anyPos fuel
+//@ spec func anyPos(sc *Chg, n int) bool {
+//@ spec 	if n <= 0 {
+//@ spec 		return false
+//@ spec 	}
+//@ spec 	return (sc.Xs[n-1] > 0 && sc.Xs[n-1] <= 10) || anyPos(sc, n-1)
+//@ spec }
+//@ func Collect2(cs []*Chg) (r []D2)
+//@   requires (forall i int :: 0 <= i && i < len(cs) ==> cs[i] != nil && cs[i].Stmt != nil)
+//@   ensures (forall i int :: 0 <= i && i < len(cs) && anyPos(cs[i], len(cs[i].Xs)) ==> hasD2(r, "c", cs[i].Stmt.Pos))
+//@   loop 1 localwrites
+//@   loop 2 localwrites
+//@   loop 1 invariant ds == nil || GvcFresh(ds)
+//@   loop 2 invariant ds == nil || GvcFresh(ds)
+//@   loop 1 invariant (forall i int :: 0 <= i && i < loopk && anyPos(cs[i], len(cs[i].Xs)) ==> hasD2(ds, "c", cs[i].Stmt.Pos))
+//@   loop 2 invariant 0 <= loopi1 && loopi1 < len(cs) && 0 <= loopk && loopk <= len(cs[loopi1].Xs)
+//@   loop 2 invariant (forall i int :: 0 <= i && i < loopi1 && anyPos(cs[i], len(cs[i].Xs)) ==> hasD2(ds, "c", cs[i].Stmt.Pos))
+//@   loop 2 invariant anyPos(cs[loopi1], loopk) ==> hasD2(ds, "c", cs[loopi1].Stmt.Pos)
